@@ -5,6 +5,7 @@ every push.  Each deviation re-runs the *same transition from the same
 snapshot* on the real code."""
 import os
 import stat
+import subprocess
 
 from . import events as E
 from .world import Crash, dest_sort_key, AUTHOR, ROBOT
@@ -245,6 +246,7 @@ def dest_trees_of_refs(w, dests):
 # C08: one third-party action immediately before each push of a job
 # ---------------------------------------------------------------------------
 FOREIGN = 'feature/foreign-work'
+NEW_DEST = 'development/99.0'
 
 
 def c08_plan(driver, w, snap, ev, res):
@@ -266,6 +268,9 @@ def c08_plan(driver, w, snap, ev, res):
         for s in srcs:
             devs.append(['ff_push', j, s])
             devs.append(['rewind', j, s])
+    # environment fault: a destination branch was created since the last
+    # refresh of the clone cache and the refresh fails in this job
+    devs.append(['stale_cache', 0])
     out['devs'] = devs
     out['ctx'] = {'pre_pending': res['pre']['pending'],
                   'cev': concretize(ev, res['pre'])}
@@ -280,8 +285,27 @@ def c08_run(driver, w, snap, ev, dev, ctx):
     pre = w.state()
     left = {}
     counter = {'n': 0}
+    if dev[0] == 'stale_cache':
+        # deterministic cache = mirror of the pre-state, then the new branch
+        w.drop_cache()
+        top = os.path.join(w.home, '.bert-e')
+        os.makedirs(top, exist_ok=True)
+        url = w.berte.git_repo._url
+        slug = url.split('/')[-1].replace('.git', '')
+        subprocess.run(['git', 'clone', '-q', '--mirror', url,
+                        os.path.join(top, slug + '.git')], check=True,
+                       stdout=subprocess.DEVNULL, stderr=subprocess.DEVNULL)
+        base = sorted(M.dests(pre).items())[-1][1]
+        w.set_ref(NEW_DEST, base)
+        left[NEW_DEST] = base
 
     def hook(idx, command, kwargs, rec):
+        if dev[0] == 'stale_cache':
+            if command.startswith('git fetch --prune') and \
+                    '.bert-e' in str(kwargs.get('cwd', '')):
+                counter['n'] += 1
+                return 'false # ' + command
+            return None
         if not command.startswith('git push'):
             return None
         j = counter['n']
@@ -315,6 +339,10 @@ def c08_run(driver, w, snap, ev, dev, ctx):
     finally:
         w.cmd_hook = None
     post = w.state()
+    if dev[0] == 'stale_cache':
+        w.drop_cache()
+        if not counter['n']:
+            left = {}
     if not left:
         out['stats']['c08_action_not_placed'] = 1
         return out
